@@ -3,21 +3,21 @@ use pyo3::prelude::*;
 #[pyclass(module = "_pendulum")]
 pub struct Duration {
     #[pyo3(get, set)]
-    pub years: u32,
+    pub years: u64,
     #[pyo3(get, set)]
-    pub months: u32,
+    pub months: u64,
     #[pyo3(get, set)]
-    pub weeks: u32,
+    pub weeks: u64,
     #[pyo3(get, set)]
-    pub days: u32,
+    pub days: u64,
     #[pyo3(get, set)]
-    pub hours: u32,
+    pub hours: u64,
     #[pyo3(get, set)]
-    pub minutes: u32,
+    pub minutes: u64,
     #[pyo3(get, set)]
-    pub seconds: u32,
+    pub seconds: u64,
     #[pyo3(get, set)]
-    pub microseconds: u32,
+    pub microseconds: u64,
 }
 
 #[pymethods]
@@ -26,14 +26,14 @@ impl Duration {
     #[pyo3(signature = (years=0, months=0, weeks=0, days=0, hours=0, minutes=0, seconds=0, microseconds=0))]
     #[allow(clippy::too_many_arguments)]
     pub fn new(
-        years: Option<u32>,
-        months: Option<u32>,
-        weeks: Option<u32>,
-        days: Option<u32>,
-        hours: Option<u32>,
-        minutes: Option<u32>,
-        seconds: Option<u32>,
-        microseconds: Option<u32>,
+        years: Option<u64>,
+        months: Option<u64>,
+        weeks: Option<u64>,
+        days: Option<u64>,
+        hours: Option<u64>,
+        minutes: Option<u64>,
+        seconds: Option<u64>,
+        microseconds: Option<u64>,
     ) -> Self {
         Self {
             years: years.unwrap_or(0),
@@ -48,12 +48,12 @@ impl Duration {
     }
 
     #[getter]
-    fn remaining_days(&self) -> PyResult<u32> {
+    fn remaining_days(&self) -> PyResult<u64> {
         Ok(self.days)
     }
 
     #[getter]
-    fn remaining_seconds(&self) -> PyResult<u32> {
+    fn remaining_seconds(&self) -> PyResult<u64> {
         Ok(self.seconds)
     }
 }
